@@ -1,7 +1,10 @@
 //go:build verif
 
-// C20 harness: drives the real Conn.<Type>List (generated_*List + splitListRequest) with recording
-// stub backends and prints one Gallina case per request (see coq/model/C20_run.v).
+// C20 harness: drives the real Conn.<Type>List (the entry points of conn.go under every kind of
+// Login.LoginCluster setting -> generated_*List + splitListRequest) with recording stub backends and
+// prints one Gallina case per request (see coq/model/C20_run.v).  Every call runs under a watchdog: a call
+// that has not returned after c20Watchdog() is recorded as the observation "stuck" (o_fate = 1), a panic in
+// the calling goroutine as o_fate = 2; the evaluator judges both.
 package federation
 
 import (
@@ -60,6 +63,20 @@ type c20Backend struct {
 	nserial   int64
 	foreign   []string // uuids requested from other clusters
 	nontarget []string
+	updates   [][]string // UserBatchUpdate calls received: the user uuids of each
+	updOK     []bool
+	updFail   bool
+	runaway   bool // more than c20MaxCalls list calls: refused without being recorded
+}
+
+// no request of the generator needs more than |todo| <= ~30 calls to one backend; an implementation that
+// keeps calling is cut off here so that a runaway loop ends (with an error) instead of eating the machine
+const c20MaxCalls = 60
+
+// c20Watchdog: how long a single Conn.<Type>List call (microseconds of work against in-process stubs) may
+// take before it is recorded as stuck.  Not a performance bound: 20 s by default.
+func c20Watchdog() time.Duration {
+	return time.Duration(vEnvInt("VERIF_C20_WATCHDOG_S", 20)) * time.Second
 }
 
 func c20Time(serial int64) int64 { return (serial*7919 + 13) % 1000003 }
@@ -83,6 +100,10 @@ func (b *c20Backend) answer(opts arvados.ListOptions) ([]c20Item, error) {
 	b.mtx.Lock()
 	defer b.mtx.Unlock()
 	n := len(b.calls)
+	if n >= c20MaxCalls {
+		b.runaway = true
+		return nil, httpserver.ErrorWithStatus(errors.New("stub: runaway caller"), 508)
+	}
 	rec := c20Call{opts: opts}
 	// deep copies of what may be reused by the caller
 	rec.opts.Filters = append([]arvados.Filter(nil), opts.Filters...)
@@ -219,7 +240,54 @@ func (b *c20Backend) UserList(ctx context.Context, o arvados.ListOptions) (arvad
 	return l, err
 }
 
+func (b *c20Backend) UserBatchUpdate(ctx context.Context, o arvados.UserBatchUpdateOptions) (arvados.UserList, error) {
+	b.mtx.Lock()
+	defer b.mtx.Unlock()
+	var us []string
+	for u := range o.Updates {
+		us = append(us, u)
+	}
+	sort.Strings(us)
+	b.updates = append(b.updates, us)
+	b.updOK = append(b.updOK, !b.updFail)
+	if b.updFail {
+		return arvados.UserList{}, errors.New("stub: batch update failed")
+	}
+	return arvados.UserList{}, nil
+}
+
 var c20Types = []string{"Collection", "Container", "ContainerRequest", "Group", "Specimen", "User"}
+var c20Kinds = []string{"KCollection", "KContainer", "KContainerRequest", "KGroup", "KSpecimen", "KUser"}
+
+// c20Guarded runs one Conn.<Type>List call in its own goroutine.  fate: 0 = returned, 1 = not back when
+// the watchdog expired (the goroutine is abandoned), 2 = panicked.
+func c20Guarded(conn *Conn, kind int, o arvados.ListOptions) (items []c20Item, err error, fate int, panicMsg string) {
+	type res struct {
+		items []c20Item
+		err   error
+		pmsg  string
+		fate  int
+	}
+	ch := make(chan res, 1)
+	go func() {
+		var r res
+		defer func() {
+			if p := recover(); p != nil {
+				r = res{fate: 2, pmsg: fmt.Sprint(p)}
+			}
+			ch <- r
+		}()
+		r.items, r.err = c20Call1(conn, kind, o)
+	}()
+	wd := time.NewTimer(c20Watchdog())
+	defer wd.Stop()
+	select {
+	case r := <-ch:
+		return r.items, r.err, r.fate, r.pmsg
+	case <-wd.C:
+		return nil, nil, 1, ""
+	}
+}
 
 func c20Call1(conn *Conn, kind int, o arvados.ListOptions) (items []c20Item, err error) {
 	ctx := context.Background()
@@ -329,9 +397,15 @@ func TestVerifC20(t *testing.T) {
 		stage = "c20"
 	}
 	cs := vNewCases(stage)
+	nStuck := 0
 	for i := 0; i < n; i++ {
 		if only >= 0 && i != only {
 			continue
+		}
+		if nStuck >= 2 {
+			// two calls that never came back are failing inputs enough; every further one would cost another
+			// watchdog period
+			break
 		}
 		r := vCaseRand(seed, i)
 		pool := []string{"aaaaa", "bbbbb", "ccccc", "ddddd", "eeeee"}
@@ -635,8 +709,39 @@ func TestVerifC20(t *testing.T) {
 		conn := &Conn{cluster: &arvados.Cluster{ClusterID: local}, local: bl, remotes: rem}
 		conn.cluster.API.MaxItemsPerResponse = max
 		kind := r.Intn(len(c20Types))
-		items, err := c20Call1(conn, kind, opts)
+		// ---- Login.LoginCluster: unset / the cluster itself / one of the remotes / a cluster nobody knows /
+		// not a cluster id at all (conn.go decides per resource type whether the splitter is used) ----
+		login, loginTag := "", "none"
+		switch x := r.Intn(20); {
+		case x < 7:
+		case x < 12:
+			login, loginTag = local, "self"
+		case x < 17:
+			if nrem > 0 {
+				login, loginTag = remotes[r.Intn(nrem)], "remote"
+			} else {
+				login, loginTag = local, "self"
+			}
+		case x < 18:
+			login, loginTag = unknown, "unknown-cluster"
+		case x < 19:
+			// a whole uuid: chooseBackend takes its prefix, batchUpdateUsers compares with all of it
+			if len(want) > 0 {
+				login = want[r.Intn(len(want))]
+			} else {
+				login = c20UUID(r, local)
+			}
+			loginTag = "uuid"
+		default:
+			login, loginTag = r.Pick("x", local+"x", local[:4], "zzzzzzzzzzzzzzzzzzzzzzzzzzzzzzzzzzzzz"), "odd"
+		}
+		conn.cluster.Login.LoginCluster = login
+		bl.updFail = r.Chance(1, 6)
+		items, err, fate, panicMsg := c20Guarded(conn, kind, opts)
 		code := c20Code(err)
+		if fate == 1 {
+			nStuck++
+		}
 
 		// ---- print ----
 		origin := map[int64]string{}
@@ -644,10 +749,16 @@ func TestVerifC20(t *testing.T) {
 		var logs []string
 		logDesc := map[string]interface{}{}
 		faultsHit := map[string]bool{}
+		runaway := false
 		for _, b := range bes {
 			var es []string
 			var ed []interface{}
-			for k, c := range b.calls {
+			// (a stuck call's goroutines may still be using the stubs)
+			b.mtx.Lock()
+			calls := append([]c20Call(nil), b.calls...)
+			runaway = runaway || b.runaway
+			b.mtx.Unlock()
+			for k, c := range calls {
 				ncalls++
 				if f, ok := b.faults[k]; ok {
 					faultsHit["hit:"+c20FaultNames[f]] = true
@@ -676,12 +787,21 @@ func TestVerifC20(t *testing.T) {
 			oi = append(oi, fmt.Sprintf("(%s, It %s %s)", gStr(origin[it.t]), gStr(it.uuid), gN(it.t)))
 			ru = append(ru, it.uuid)
 		}
-		if code != 0 {
+		if code != 0 || fate != 0 {
 			oi = nil // items returned next to an error are not part of the observable result
 		}
+		bl.mtx.Lock()
+		blCalls := append([]c20Call(nil), bl.calls...)
+		var upd []string
+		for k, us := range bl.updates {
+			upd = append(upd, "("+gStrs(us)+", "+gBool(bl.updOK[k])+")")
+		}
+		updDesc := append([][]string(nil), bl.updates...)
+		bl.mtx.Unlock()
 		sort.Strings(exist)
-		term := fmt.Sprintf("{| c_cfg := Cf %s %s %s; c_opts := %s; c_exist := %s;\n   c_logs := %s;\n   o_code := %s; o_items := %s |}",
-			gStr(local), gStrs(remotes), gZ(int64(max)), c20Opts(opts), gStrs(exist), gList(logs), gN(int64(code)), gList(oi))
+		term := fmt.Sprintf("{| c_cfg := Cf %s %s %s; c_login := %s; c_kind := %s; c_opts := %s; c_exist := %s;\n   c_logs := %s;\n   c_upd := %s; o_fate := %s; o_code := %s; o_items := %s |}",
+			gStr(local), gStrs(remotes), gZ(int64(max)), gStr(login), c20Kinds[kind], c20Opts(opts), gStrs(exist), gList(logs),
+			gList(upd), gN(int64(fate)), gN(int64(code)), gList(oi))
 		fj := []interface{}{}
 		for _, f := range filters {
 			fj = append(fj, []interface{}{f.Attr, f.Operator, fmt.Sprintf("%T %v", f.Operand, f.Operand)})
@@ -691,6 +811,11 @@ func TestVerifC20(t *testing.T) {
 			"filters": fj, "count": opts.Count, "limit": opts.Limit, "offset": opts.Offset, "order": opts.Order,
 			"select": opts.Select, "bypass": opts.BypassFederation, "forwarded_for": opts.ForwardedFor,
 			"exist": exist, "logs": logDesc, "code": code, "result": ru,
+			"login_cluster": login, "fate": []string{"returned", "STUCK: no answer within the watchdog period", "PANIC"}[fate],
+			"user_batch_updates": updDesc,
+		}
+		if fate == 2 {
+			desc["panic"] = panicMsg
 		}
 		if err != nil {
 			desc["error"] = err.Error()
@@ -701,12 +826,28 @@ func TestVerifC20(t *testing.T) {
 			plan = "reject"
 		case ncalls == 0:
 			plan = "nothing"
-		case ncalls == 1 && len(bl.calls) == 1 && func() bool { _, ok := c20Batch(bl.calls[0].opts); return !ok }():
+		case ncalls == 1 && len(blCalls) == 1 && func() bool { _, ok := c20Batch(blCalls[0].opts); return !ok }():
 			plan = "pass"
 		}
 		tags := []string{"type:" + c20Types[kind], "plan:" + plan, fmt.Sprintf("code:%d", code),
 			fmt.Sprintf("clusters-involved:%d", len(involved)), fmt.Sprintf("filters:%d", len(filters))}
 		tags = append(tags, faultTags...)
+		tags = append(tags, "login:"+loginTag)
+		if kind == 5 {
+			tags = append(tags, "user-list-login:"+loginTag)
+			if len(updDesc) > 0 {
+				tags = append(tags, "user-cache-update")
+			}
+			if ncalls == 1 && login != "" && login != local && !opts.BypassFederation {
+				tags = append(tags, "forwarded-to-login-cluster")
+			}
+		}
+		if fate != 0 {
+			tags = append(tags, []string{"", "fate:stuck", "fate:panic"}[fate])
+		}
+		if runaway {
+			tags = append(tags, "runaway-cut-off")
+		}
 		for k := range faultsHit {
 			tags = append(tags, k)
 		}
@@ -728,7 +869,7 @@ func TestVerifC20(t *testing.T) {
 		if strings.Count(term, "AItems") >= 2 && code == 0 {
 			tags = append(tags, "multi-page-success")
 		}
-		cs.Add(i, term, desc, ncalls >= 2 || code != 0, tags...)
+		cs.Add(i, term, desc, ncalls >= 2 || code != 0 || fate != 0, tags...)
 	}
 	cs.Write()
 }
